@@ -49,6 +49,10 @@ build() {
 case "${1:-}" in
   setup)
     build
+    # the interpreter's standard library for the big-endian machine of S5 (becheck): built once,
+    # offline, from the nightly toolchain's rust-src; without it S5 is skipped with a note
+    (cd "$ROOT/becheck" && cargo +nightly miri setup --target s390x-unknown-linux-gnu >"$ROOT/becheck/setup.log" 2>&1) || \
+      echo "note: no Miri sysroot for s390x; the big-endian check (S5) will be skipped" >&2
     echo "setup ok"
     ;;
   selftest)
@@ -69,7 +73,8 @@ case "${1:-}" in
         [ "$1" = thorough ] && tier=thorough
         exec "$BIN" check --tier "$tier" --seed "${VERIF_SEED:-1}" \
           --evidence "$ROOT/evidence/C18.json" --replay-dir "$ROOT/replays" --known "$ROOT/KNOWN_FINDINGS.json" \
-          --real-bins "$GENSIM/target/realbins/debug" --real-cwd "$GENSIM/target/realws/unic-langid-impl"
+          --real-bins "$GENSIM/target/realbins/debug" --real-cwd "$GENSIM/target/realws/unic-langid-impl" \
+          --becheck "$ROOT/becheck"
         ;;
       *) echo "usage: ./run.sh C18 quick|thorough|--replay <file>" >&2; exit 2 ;;
     esac
